@@ -816,4 +816,83 @@ def replay_embedded_nul(a):
         shutil.rmtree(d, ignore_errors=True)
 
 
-SITES = {"C11": [scalar_typing, type_ref, short_form_tables, serde_number_typing, short_form_loader_agreement, scalar_bytes_wiring, loader_sequence_end], "C16": [serde_number_typing, short_form_loader_agreement, loader_sequence_end, scalar_typing, type_ref], "C10": [scalar_typing], "C08": [loader_stops_at_stream_end, loader_sequence_end]}
+def short_form_sets_subset(a):
+    """C08 / C11: short_form_to_long ends in `_ => unreachable!()`; both loaders call it after finding the tag in SINGLE_VALUE_FUNC_REF
+    or SEQUENCE_VALUE_FUNC_REF. Precondition of that arm being unreachable: every member of the two sets is a key of
+    SHORT_FORM_TO_LONG_MAPPING. The three tables are read off their lazy_static initialisers in the MIR of the current tree; the
+    solver decides `exists t: t in SINGLE u SEQUENCE and t not a key` over a String symbol (a model is the offending tag)."""
+    inits = {"HashMap<&str, &str>": [], "HashSet<&str>": []}
+    for m in re.finditer(r"^fn (?:rules::)?<impl at [^>]*lazy_static[^>]*>::deref::__static_ref_initialize\(\) -> (Hash(?:Map|Set)<&str(?:, &str)?>) \{$", a.mir, re.M):
+        end = a.mir.index("\n}\n", m.start())
+        inits[m.group(1)].append(a.mir[m.start():end])
+    def inserted(body, arity):
+        # constants handed to insert, directly or through a local assigned once from a constant
+        consts = dict(re.findall(r"^\s*(_\d+) = const \"([^\"]*)\";$", body, re.M))
+        out = []
+        for m in re.finditer(r"= Hash(?:Map|Set)::<[^>]*>::insert\(([^)]*)\) ->", body):
+            args = [x.strip() for x in m.group(1).split(",")][1:]
+            vals = []
+            for x in args:
+                mc = re.match(r'const "([^"]*)"$', x)
+                mv = re.match(r"(?:move|copy) (_\d+)$", x)
+                vals.append(mc.group(1) if mc else consts.get(mv.group(1)) if mv else None)
+            out.append(vals)
+        return out
+    ok_shape = len(inits["HashMap<&str, &str>"]) == 1 and len(inits["HashSet<&str>"]) == 2
+    keys, members = [], []
+    if ok_shape:
+        keys = [v[0] for v in inserted(inits["HashMap<&str, &str>"][0], 2)]
+        for b in inits["HashSet<&str>"]:
+            members += [v[0] for v in inserted(b, 1)]
+    to_long = ""
+    try:
+        to_long = mirsmt.find_fn(a.mir, r"(?:rules::)?short_form_to_long")
+    except Untranslatable:
+        ok_shape = False
+    a.fns.append("rules::short_form_to_long + the three lazy_static tables it depends on")
+    if not ok_shape or not keys or not members or None in keys or None in members:
+        a.ob.items.append({"obligation": "loader/short-form/every-known-tag-has-a-long-form", "describe": "tables not found / not constant in the MIR",
+                           "verdicts": {}, "status": "inconclusive", "model": None})
+        return
+    esc = lambda x: '"' + x.replace('"', '""') + '"'
+    in_sets = "(or false " + " ".join(f"(= t {esc(x)})" for x in members) + ")"
+    in_keys = "(or false " + " ".join(f"(= t {esc(x)})" for x in keys) + ")"
+    total = "HashMap::<&str, &str>::get" in to_long and "entered unreachable code" in to_long
+    a.ob.check("loader/short-form/every-known-tag-has-a-long-form", ["(declare-const t String)"], [in_sets], f"(not {in_keys})" if total else "false",
+               f"every tag of SINGLE_VALUE_FUNC_REF u SEQUENCE_VALUE_FUNC_REF ({len(members)} members read off the MIR) is a key of "
+               f"SHORT_FORM_TO_LONG_MAPPING ({len(keys)} keys): short_form_to_long's `unreachable!()` arm cannot be entered by either loader "
+               "(a model is the tag that panics)" + ("" if total else " [short_form_to_long no longer has a panicking arm: nothing to show]"))
+    item = a.ob.items[-1]
+    item["paths"], item["cut_by_unroll_bound"], item["unroll"] = 1, 0, 0
+    if item["status"] == "refuted":
+        item["replay"] = replay_every_known_tag(a, sorted(set(members)))
+        item["reproduced"] = item["replay"].get("reproduced", False)
+        a.candidates.append(item)
+
+
+def replay_every_known_tag(a, tags=None):
+    """each tag of the two sets on a scalar and on a sequence through `validate`: a panic (exit 101 / 'panicked at') reproduces"""
+    exe = a.cli()
+    if not exe:
+        return {"reproduced": False, "note": "native build failed"}
+    if tags is None:
+        tags = ["Ref", "GetAtt", "Base64", "Sub", "GetAZs", "ImportValue", "Condition", "Select", "Split", "Join", "FindInMap", "If", "And", "Or",
+                "Not", "Equals", "Cidr", "Transform", "Contains", "Length", "ToJsonString"]
+    import os, tempfile, shutil, subprocess
+    out = []
+    for t in tags:
+        d = tempfile.mkdtemp(prefix="cfnverif_replay_")
+        try:
+            open(os.path.join(d, "r.guard"), "w").write("rule t {\n  A exists\n}\n")
+            open(os.path.join(d, "d.yaml"), "w").write(f"A: !{t} x\nB: !{t} [ 1, 2 ]\nC:\n  - !{t} [ !{t} y ]\n")
+            p = subprocess.run([exe, "validate", "-r", os.path.join(d, "r.guard"), "-d", os.path.join(d, "d.yaml"), "--structured", "-o", "json",
+                                "--show-summary", "none"], stdout=subprocess.PIPE, stderr=subprocess.PIPE, text=True, timeout=120)
+            out.append({"tag": t, "exit": p.returncode, "panicked": p.returncode == 101 or "panicked at" in p.stderr, "stderr": p.stderr[:200]})
+        finally:
+            shutil.rmtree(d, ignore_errors=True)
+    badc = [o for o in out if o["panicked"]]
+    return {"reproduced": bool(badc), "mismatches": badc[:5], "cases": out}
+
+
+SITES = {"C11": [scalar_typing, type_ref, short_form_tables, short_form_sets_subset, serde_number_typing, short_form_loader_agreement, scalar_bytes_wiring, loader_sequence_end], "C16": [serde_number_typing, short_form_loader_agreement, loader_sequence_end, scalar_typing, type_ref], "C10": [scalar_typing], "C08": [loader_stops_at_stream_end, loader_sequence_end, short_form_sets_subset],
+         "C19": [scalar_typing]}
